@@ -16,8 +16,15 @@ CONFIG = {
              "inversion x attribute in {., key, key.key, *, a.*, **, /a/b, a[0]} x 9 terms, valid and invalid "
              "regexes) in dot and slash notation, collector expressions, sampled/exhaustive 2-segment paths, random "
              "paths of up to 5 segments; each under get_nodes(mustexist=True), get_nodes(mustexist=False) and "
-             "exists().  Keyword-search segments ([has_child()], [max()], ...) are NOT generated here: their handler "
-             "is a parameter of the model (Keywords.v is another agent's).  non-trivial = at least one of the "
+             "exists().  Keyword-search segments (evalcommon.gen_kw_cases): 55 spellings of [has_child(..)] incl. "
+             "&anchor and the empty key, [name()], [max(..)], [min(..)], [parent(n)] for n in -1..9 / non-integer / "
+             "padded, [unique(..)], [distinct(..)], inverted forms, surplus parameters -- alone (dot and slash), after "
+             "28 prefixes (keys, indexes, wildcards, **, slices incl. the [n:n] form, searches, [&anchor], collector "
+             "expressions) and before 12 suffixes, 57 chains (parent() chains, keyword after keyword, slices of "
+             "slices), over 36 keyword documents (nulls, empty containers, mixed-type lists, lists holding lists / "
+             "hashes, Array-of-Hashes and hash-of-hashes with the attribute present / absent / null / a container, "
+             "the single-node shape, sets, anchors) + the fixed list + small trees, and at random positions of "
+             "random paths over random documents and random keyword collections.  non-trivial = at least one of the "
              "observations is a non-empty result or an exception other than 'unmatched'; distinct = distinct "
              "(document, path list)."),
     "trusted_base": [
@@ -25,17 +32,27 @@ CONFIG = {
         "YAMLPath.__add__/append/separator, Nodes.node_is_aoh; common/searches.py + Nodes.typed_value through Searches.v",
         "oracles (Section variables in Coq, finite tables computed by the real libraries in the run): "
         "ast.literal_eval, re.compile().search, str() of ruamel containers",
-        "parameters of the model: the keyword-search handler and the node-creating branches of "
-        "_get_optional_nodes (a query that creates nodes is observed and modelled as 'mutates' and nothing more)",
-        "not modelled: YAML merge keys, TaggedScalar unwrapping, Python's recursion limit (deep documents are "
-        "only run on the real code)",
+        "keyword segments: Keywords.v (yamlpath/common/keywordsearches.py) joined to the evaluator by the coordinate "
+        "conversion of EvalKw.v (synthetic per-call document, keyword-specific views of evaluator-built lists)",
+        "parameter of the model: the node-creating branches of _get_optional_nodes (a query that creates nodes is "
+        "observed and modelled as 'mutates' and nothing more)",
+        "a scalar node whose value equals its own parentref (the result of name()) is compared by value, not by "
+        "CPython identity (drv_eval.ml name_like / evalcommon.node_or_name_sexp)",
+        "not modelled: YAML merge keys, TaggedScalar unwrapping, anchored YAML booleans among the values max/min "
+        "compare, Python's recursion limit (deep documents are only run on the real code)",
     ],
     "assumptions": [
         "the model is the code only as far as the correspondence run shows",
         "C15_* theorems assume the oracles answer (lit / re_search never fail, literal_eval raises only the "
         "exceptions typed_value catches) and are stated for paths whose sub-paths were prepared by Eval.prepare",
+        "C15_*_kw: keyword parameter texts split (kw_params_ok; the parser refuses unbalanced quotes before the "
+        "evaluator sees them -- a parser property, part of the fragment); C15_*_partial: the guard kc_fragment "
+        "(collector expression first, every operand evaluated on the document yields scalars)",
     ],
 }
+
+
+KW_NAMES = ("has_child(", "name(", "max(", "min(", "parent(", "unique(", "distinct(")
 
 
 def is_crash(line):
@@ -73,7 +90,9 @@ def classify(case, obs):
         else:
             kinds["crash"] += 1
     dom = max(kinds, key=lambda k: kinds[k])
-    return "docsize%02d:%s" % (min(len(case[0]) // 10, 20), dom)
+    kw = sum(1 for p in case[1] if any(k in p for k in KW_NAMES))
+    return "docsize%02d:%s:kw%s" % (min(len(case[0]) // 10, 20), dom,
+                                    "0" if kw == 0 else ("some" if kw < len(case[1]) else "all"))
 
 
 def nontrivial(case, obs):
@@ -93,9 +112,25 @@ FINDING_PREDS = {"collector_then_text": f25_collector_then_text}
 
 def corpus_chunks():
     yield [("{a: 1, b: 2}", ["(a)b", "(a)'b'", "a.(b)c"]),
+           # keyword segments: the repaired defects and the seeded one
+           ("x: {a: 1}", ["x[has_child(,)]", "x[!has_child(,)]"]), ("x: [[{a: 1}]]", ["x[0:1][0:1][0][max(a)]"]),
+           ("x: {a: 1, b: 2}", ["x.*[parent()]", "x.**[parent()]", "x.*[parent(2)]"]),
+           ("[{k: 1}, null, {k: 0}]", ["[min(k)]", "[max(k)]", "[!min(k)]"]),
+           ("[{a: null}]", ["/[name(a)](**)[!max(a)]", "[name()]", "[0].a[name()][parent(0)]"]), ("[1, [2], 1]", ["[unique()]", "[distinct()]"]),
            ("[1]", ["[-2]", "/-2", "[0:9]", "[-9:1]"]), ("[null]", ["[.=x]"]), ("{a: [x]}", ["a[.=~/(/]"]),
            ("{1: x, a: y}", ["[a:z]"]), ("[a]", ["[.={[1]:2}]"]), ("['{[1]: 2}']", ["[.=a]"])]
 
 
+def extra_requests(case):
+    return ec.frag_requests(case)
+
+
+def model_stats(case, outs):
+    return ec.frag_stats(case, outs)
+
+
 def chunks(tier, seed):
-    return ec.chunks_by_weight(ec.gen_cases(tier, seed, with_collectors=True))
+    import itertools
+    return ec.chunks_by_weight(itertools.chain(ec.gen_kw_cases(tier, seed),
+                                               ec.gen_scalar_collector_cases(tier, seed),
+                                               ec.gen_cases(tier, seed, with_collectors=True)))
